@@ -740,6 +740,13 @@ def rule_scope_exit_unconditional(ck, facts, R="C12.pairing"):
     evals = [f for f in lang.fns if "::compiler::mirgen" in f.path and f.kind == "assoc" and (cv := cover.coverage(facts, f, roles.EXPR)) is not None and cv.primary is not None and len(cv.primary_handled()) >= 20]
     adt = facts.adt(roles.EXPR)
     n = 0
+    # the release walker, or a helper of the generator that does nothing but call it (an extracted scope-exit block)
+    releasing = {rel.path}
+    evalpaths = {f.path for f in evals}
+    for g in lang.fns:
+        if "::compiler::mirgen" in g.path and g.kind in ("assoc", "fn") and g.path not in evalpaths and g.path != rel.path and cover.coverage(facts, g, roles.EXPR) is None:
+            if any((callee(t) or "") == rel.path for h in facts.family(roles.LANG, g.path) for _, t in h.calls()) and g.path not in {w.path for w in walkers_by_role(facts).values()}:
+                releasing.add(g.path)
     for f in evals:
         cov = cover.coverage(facts, f, roles.EXPR)
         for v in sorted(cov.primary_handled()):
@@ -747,7 +754,7 @@ def rule_scope_exit_unconditional(ck, facts, R="C12.pairing"):
             if tb is None:
                 continue
             region = reachable(f, tb, stop=[cov.primary.block])
-            calls = [b for b in region if f.term(b)[KIND] == "call" and (callee(f.term(b)) or "") == rel.path]
+            calls = [b for b in region if f.term(b)[KIND] == "call" and (callee(f.term(b)) or "") in releasing]
             if not calls:
                 continue
             var = [x for x in adt["variants"] if x["n"] == v]
